@@ -6,8 +6,14 @@ Run by hand after the hand-written Lean models (Model/*.lean) have been brought 
 The check never runs this: a source change that alters a fingerprint breaks the obligation
 `*_source_current` of every property that depends on the function.
 """
-import json, os
+import json, os, subprocess
 ROOT = os.path.dirname(os.path.dirname(os.path.abspath(__file__)))
+env = dict(os.environ, GOFLAGS="-mod=mod", GOPROXY="off")
+env.pop("GOSUMDB", None); env.pop("GOTOOLCHAIN", None)
+subprocess.check_call(["go", "build", "-o", "bin/go2lean", "./cmd/go2lean"], cwd=os.path.join(ROOT, "tools"), env=env)
+subprocess.check_call([os.path.join(ROOT, "tools/bin/go2lean"), "-repo", os.environ.get("VERIF_REPO", "/repo"),
+                       "-out", os.path.join(ROOT, "lean/SamlModel/Generated"), "-meta", os.path.join(ROOT, "harness/gen/meta.json"),
+                       "-shim", os.path.join(ROOT, "harness/gen/zz_verif_export.go")], env=env)
 facts = json.load(open(os.path.join(ROOT, "harness/gen/meta.json")))["facts"]
 
 def s(x):
